@@ -30,6 +30,12 @@ let do_run () =
   Printf.printf "k %d\n" (int_of_z o.o_k);
   Printf.printf "abort %d\n" (if o.o_abort then 1 else 0);
   Printf.printf "pc %d\n" (int_of_z o.o_pc);
+  print_string "rf";
+  List.iter (fun (st, l) -> Printf.printf " %d:%s" (int_of_z st) (String.concat "," (List.map (fun x -> string_of_int (int_of_z x)) l))) o.o_rf;
+  print_newline ();
+  print_string "pending";
+  List.iter (fun x -> Printf.printf " %d" (int_of_z x)) o.o_pending;
+  print_newline ();
   print_string "end\n"
 
 let () = run_main ["run", do_run]
